@@ -959,7 +959,22 @@ def check_scopes(repo, res, rule_entry, rule_methods):
     _guard(sibling_global_isolated, res, rule_methods, 'a global declaration does not change what a sibling scope reads', SCOPE,
            'the table a function starts from is its own: a `global` declaration of one nested function must not re-route the name in the '
            'functions next to it, whichever is resolved first')
-    res.count(rule_entry + '_scenarios', 15, floor=15)
+    def module_level_global_is_a_no_op():
+        # global x / x = 1 / print(x)  at module level: legal, and x is the module's x
+        top, tf, gx, gy = build()
+        top.attrs['globals'].add('x')
+        try:
+            x = m.describe(m.lookup(m.names_at(tf, (9, 0)), 'x'))
+            y = m.describe(m.lookup(m.names_at(tf, (9, 0)), 'y'))
+        except Uninterpretable as e:
+            if 'depth' in str(e) or 'budget' in str(e):
+                return False, 'a `global x` statement at module level: the lookup of x at module level does not terminate (%s)' % e
+            raise
+        return x == frozenset([gx.oid]) and y == frozenset([gy.oid]), \
+            'a `global x` statement at module level: x resolves to %s (must be the module\'s own %s), y to %s' % (sorted(x or []), gx.oid, sorted(y or []))
+    _guard(module_level_global_is_a_no_op, res, rule_methods, 'a global declaration at module level changes nothing', SCOPE,
+           '`global x` is legal at module level and has no effect there: the module\'s names are looked up as without it')
+    res.count(rule_entry + '_scenarios', 16, floor=16)
 
 
 def check_name_scope(repo, res, rule):
